@@ -76,7 +76,8 @@ def rule_arm(ctx):
     ctx.ob("open-handshake timer armed in _connectionMade", bool(_sites(ctx, "openHandshakeTimeoutCall", f"{WSP}._connectionMade")), "missing", "")
     # close handshake when initiating
     cs = _sites(ctx, "closeHandshakeTimeoutCall", f"{WSP}.sendCloseFrame")
-    ok = bool(cs) and all(("truth", "self.closedByMe", None, True) in s["facts"] and ("eq", "self.state", ("c", S["STATE_CLOSING"]), True) in s["facts"] for s in cs)
+    from .common import initiated_by_us
+    ok = bool(cs) and all(initiated_by_us(s["facts"], s["fn"]) and ("eq", "self.state", ("c", S["STATE_CLOSING"]), True) in s["facts"] for s in cs)
     ctx.ob("close-handshake timer armed when this side initiates the close", ok, "not armed under closedByMe after state = CLOSING", "")
     # server drop: client, after the peer's close frame, in both the replied-to-us and we-replied cases
     ds = _sites(ctx, "serverConnectionDropTimeoutCall", f"{WSP}.onCloseFrame")
